@@ -4,7 +4,7 @@ import ast
 from ..framework import rule
 from ..astutil import dotted, call_name, call_recv, norm, walk_local, unparse
 from .. import q
-from .common import (graph_ops, GRAPH_MUTATORS, assigned_value, kw, arg, is_cached_test,
+from .common import (enclosing_stmt, graph_ops, GRAPH_MUTATORS, assigned_value, kw, arg, is_cached_test,
                      enclosing_for, local_aliases, expand_alias)
 
 META = {
@@ -140,6 +140,11 @@ def r3(ctx, R):
     def canon(txt):
         return txt.replace("self.callstack", "<stack>").replace("self[", "<stack>[").replace("self.idxstack", "<stack>.idxstack")
 
+    TOP = "<stack>[<stack>.idxstack[-1]]"
+
+    def ct(fi, e):
+        return canon(q.anorm(fi, e))
+
     miss = [c for c, k, nm in graph_ops(pop, ("add_edge",)) if k == "trace" and norm(c.args[0]) == "node"]
     R.inst("pop: completion records an edge for a cached callee")
     if len(miss) != 1:
@@ -147,48 +152,54 @@ def r3(ctx, R):
         return
     m = miss[0]
     R.inst("hit/miss: same (source, target) expression")
-    h_args = [canon(norm(a)) for a in h.args]
-    m_args = [canon(norm(a)).replace("<stack>[", "<stack>[") for a in m.args]
-    if h_args != ["node", "<stack>[pred]"] or m_args != ["node", "<stack>[pred]"]:
-        R.bad(en if h_args != ["node", "<stack>[pred]"] else pop, h if h_args != ["node", "<stack>[pred]"] else m,
+    h_args = [norm(h.args[0])] + [ct(en, a) for a in h.args[1:]]
+    m_args = [norm(m.args[0])] + [ct(pop, a) for a in m.args[1:]]
+    if h_args != ["node", TOP] or m_args != ["node", TOP]:
+        R.bad(en if h_args != ["node", TOP] else pop, h if h_args != ["node", TOP] else m,
               "dependency edge is not (callee node -> nearest cached caller): hit %s, miss %s" % (h_args, m_args))
+    # in pop the top of idxstack must be read after this frame's own entry was popped
+    R.inst("pop: the caller's index is read after the frame's own idxstack entry is popped")
+    ipop = q.calls(pop, name="pop", recv="self.idxstack")
+    if len(ipop) != 1:
+        R.bad(pop, pop.node, "pop does not drop exactly one idxstack entry", stmt="idxstack.pop()")
+    else:
+        for n_ in walk_local(pop.node):
+            if isinstance(n_, ast.Subscript) and norm(n_) == "self.idxstack[-1]":
+                st = enclosing_stmt(pop, n_)
+                if not q.dominated(pop, [ipop[0]], st):
+                    R.bad(pop, st, "the nearest cached caller is read before the frame's own idxstack entry is popped")
     for fi, c in ((en, h), (pop, m)):
-        pv = assigned_value(fi, "pred")
-        R.inst("%s: pred is the top of idxstack" % fi.short)
-        if len(pv) != 1 or canon(norm(pv[0])) != "<stack>.idxstack[-1]":
-            R.bad(fi, c, "pred is not idxstack[-1] (index of the nearest cached caller)")
-        R.inst("%s: edge guarded by non-empty stack and pred >= 0" % fi.short)
-        g = {(canon(t), l) for t, l in q.guards_of(fi, c)}
-        need = {("<stack>" if fi is en else "self", "T"), ("pred >= 0", "T")}
-        if not need <= {(("self" if t == "self" else t), l) for t, l in g}:
+        R.inst("%s: edge guarded by non-empty stack and top of idxstack >= 0" % fi.short)
+        g = {(canon(t), l) for t, l in q.guards_of(fi, c).resolved()}
+        need = {("<stack>" if fi is en else "self", "T"), ("<stack>.idxstack[-1] >= 0", "T")}
+        if not need <= g:
             R.bad(fi, c, "edge is not recorded under (stack non-empty and pred >= 0): guards are %s" % sorted(g))
     # hit edge only on the hit branch; same graph
     R.inst("eval_node: edge is added to the model's tracegraph of the callee")
-    if call_recv(h) != "cells.model.tracegraph":
+    if q.anorm(en, h.func.value) != "node[OBJ].model.tracegraph":
         R.bad(en, h, "hit edge goes to another graph")
-    al = local_aliases(pop)
-    if expand_alias(call_recv(m), al) != "cells.model.tracegraph":
+    if q.anorm(pop, m.func.value) != "node[OBJ].model.tracegraph":
         R.bad(pop, m, "completion edge goes to another graph")
     # object-node edge for uncached callee
-    obj_edges = [c for c, k, nm in graph_ops(pop, ("add_edge",)) if k == "trace" and norm(c.args[0]) == "(cells,)"]
+    obj_edges = [c for c, k, nm in graph_ops(pop, ("add_edge",)) if k == "trace" and q.anorm(pop, c.args[0]) == "(node[OBJ],)"]
     R.inst("pop: an uncached callee is linked as (cells,) to the nearest cached caller")
-    if len(obj_edges) != 1 or canon(norm(obj_edges[0].args[1])) != "<stack>[pred]":
+    if len(obj_edges) != 1 or ct(pop, obj_edges[0].args[1]) != TOP:
         R.bad(pop, pop.node, "uncached callee is not linked to its nearest cached caller by its object node",
               stmt="add_edge((cells,), self[pred])")
     else:
         g = q.guards_of(pop, obj_edges[0])
-        if g != {("self", "T"), ("cells.is_cached", "F"), ("pred >= 0", "T")}:
+        if g != {("self", "T"), ("node[OBJ].is_cached", "F"), ("self.idxstack[-1] >= 0", "T")}:
             R.bad(pop, obj_edges[0], "object-node edge is not recorded under exactly (stack non-empty, uncached, pred >= 0): "
                                      "guards are %s - an uncached cells reached through another uncached cells is not linked "
                                      "to the cached caller" % sorted(g))
     gk = q.guards_of(pop, m)
     R.inst("pop: key-node edge under exactly (stack non-empty, cached, pred >= 0)")
-    if gk != {("self", "T"), ("cells.is_cached", "T"), ("pred >= 0", "T")}:
+    if gk != {("self", "T"), ("node[OBJ].is_cached", "T"), ("self.idxstack[-1] >= 0", "T")}:
         R.bad(pop, m, "completion edge has extra/missing conditions: %s" % sorted(gk))
     gh = q.guards_of(en, h)
     R.inst("eval_node: hit edge under exactly (cached, held, stack non-empty, pred >= 0)")
-    if {t for t, l in gh if l == "T"} != {"cells.is_cached", "cells.has_node(key)", "self.callstack", "pred >= 0"} or \
-            any(l == "F" for t, l in gh):
+    if gh != {(t, "T") for t in ("node[OBJ].is_cached", "node[OBJ].has_node(node[KEY])", "self.callstack",
+                                 "self.callstack.idxstack[-1] >= 0")}:
         R.bad(en, h, "hit edge has extra/missing conditions: %s" % sorted(gh))
     # append arms
     ap = ctx.func("CallStack.append")
@@ -196,13 +207,14 @@ def r3(ctx, R):
     R.inst("append: three idxstack arms (cached -> own index; uncached -> caller's; bottom -> -1)")
     got = {}
     for c in arms:
-        got[norm(c.args[0])] = q.guards_of(ap, c)
+        got[q.rnorm(ap, c.args[0])] = {(q.rnorm(ap, ast.parse(t, mode="eval").body), l) for t, l in q.guards_of(ap, c)}
     R.slot("idxstack_arms", {k: sorted(v) for k, v in got.items()})
-    ok = (set(got) == {"stacklen", "self.idxstack[-1]", "-1"}
-          and ("item[OBJ].is_cached", "T") in got.get("stacklen", set())
+    SL = "len(self)"
+    ok = (set(got) == {SL, "self.idxstack[-1]", "-1"}
+          and ("item[OBJ].is_cached", "T") in got.get(SL, set())
           and ("item[OBJ].is_cached", "F") in got.get("self.idxstack[-1]", set())
-          and ("stacklen", "T") in got.get("self.idxstack[-1]", set())
-          and ("stacklen", "F") in got.get("-1", set())
+          and (SL, "T") in got.get("self.idxstack[-1]", set())
+          and (SL, "F") in got.get("-1", set())
           and ("item[OBJ].is_cached", "F") in got.get("-1", set()))
     if not ok:
         R.bad(ap, ap.node, "idxstack is not maintained as (cached: own index / uncached: caller's / bottom: -1)",
@@ -249,7 +261,7 @@ def r4(ctx, R):
     pop = ctx.func("CallStack.pop")
     refadds = [c for c, k, nm in graph_ops(pop, ("add_edge",)) if k == "ref"]
     R.inst("CallStack.pop: references read in an uncached cells are attached to (cells,)")
-    objadds = [c for c in refadds if len(c.args) == 2 and norm(c.args[1]) == "(cells,)"]
+    objadds = [c for c in refadds if len(c.args) == 2 and q.anorm(pop, c.args[1]) == "(node[OBJ],)"]
     if not objadds:
         R.bad(pop, pop.node, "references read inside an uncached cells are not recorded at all: changing the "
                              "reference does not invalidate cached callers", stmt="refgraph.add_edge(ref, (cells,))")
